@@ -34,7 +34,7 @@ def plan(tier, seed):
     n = 16
     L = 4 if tier == "quick" else 6
     specs = [{"name": f"strings-{i}", "mode": "strings", "maxlen": L, "shard": i, "nshards": n} for i in range(n)]
-    nr = 1500 if tier == "quick" else 40000
+    nr = 6000 if tier == "quick" else 40000
     for i in range(4):
         specs.append({"name": f"random-{i}", "mode": "random", "n": nr, "rseed": seed * 131 + i})
     return specs
